@@ -31,7 +31,9 @@ def _init():
     boot.environment()
 
 
-def _script(code):
+def _script(code, live=False):
+    """A Script for `code` under a path of its own (parso mutates cached trees in place).
+    `live`: this module stays in use while further ones are analysed."""
     jedi = boot.boot()
     env = boot.environment()
     root = os.path.join(boot.scratch_root(), 'c11proj')
@@ -39,18 +41,24 @@ def _script(code):
         os.makedirs(root, exist_ok=True)
         _state['project'] = jedi.Project(root, smart_sys_path=False)
     _state['n'] += 1
-    # every analysed text gets its own path (parso mutates cached trees in place)
+    if _state['n'] % 100 == 0:
+        _drop_parser_cache()
     path = os.path.join(root, 'w%d' % os.getpid(), 't%d.py' % _state['n'])
+    if live:
+        _state['live'] = path
     return jedi.Script(code, path=path, environment=env, project=_state['project'])
 
 
 def _drop_parser_cache():
-    """Texts are never revisited: keep the per-process parser cache from growing."""
+    """Texts are never revisited: parso's in-memory cache must not reach its garbage-collection
+    trigger (600 entries), which would evict the typeshed stubs in use (boot.prune_parser_cache)."""
     root = os.path.join(boot.scratch_root(), 'c11proj') + os.sep
+    keep = _state.get('live')
     try:
         from parso.cache import parser_cache
         for per_grammar in parser_cache.values():
-            for path in [p for p in per_grammar if str(p).startswith(root)]:
+            for path in [p for p in per_grammar
+                         if str(p).startswith(root) and str(p) != keep]:
                 del per_grammar[path]
     except Exception:
         pass
@@ -359,7 +367,7 @@ def _work_index(task):
     for li, (args, probes, _k) in enumerate(texts):
         mod, ln = (None, line0 + li % BATCH) if li % BATCH else module_of(li)
         if mod is not None:
-            script = _script(mod)
+            script = _script(mod, live=True)
         results = []
         for off, pre, cur in probes:
             evals += 1
